@@ -203,6 +203,21 @@ CLAIMED = {
              'the loader\'s four steps (read off the source on every run). All theorems closed under the global context.',
         technique='Coq invariant proof over sequences of runs of a cache-slot model + schedule-level model of the patched global (serial schedules proved, a racing schedule refuted by vm_compute) + differential correspondence with real interpreter runs',
         design='5/C16'),
+    'C13': dict(
+        text='Machine-checked (Coq 8.16.1) over a model of class dictionaries (plain, class, static and property members, '
+             'pre-decorated and @no_type_check callables, nested and foreign classes, data): decorating a class is '
+             'decorating each attribute it defines (recursively for nested classes, nothing else); decoration is '
+             'idempotent on callables, members and classes (mutual induction); descriptor kinds and names are kept; a '
+             'wrapper exposes the original; unannotated and @no_type_check callables, strategy O0 and python -O are '
+             'identities. On every run generated classes are decorated for real as a whole and member by member and '
+             'compared with the model (which functions become wrappers) and with each other call for call, together '
+             'with object identity of the class, descriptor kinds, names / docstrings / signatures, __wrapped__, '
+             'idempotence by object identity (this exposed F27), inherited members, and python -O in a separate interpreter.',
+        note='Trusted: Coq kernel; the hand-written model C13/Decor.v (tied by correspondence only: the theorems are '
+             'simple algebraic facts about it, the weight is in the differential execution); dataclass fields, '
+             'metaclasses and class redefinition are outside the model. All theorems closed under the global context.',
+        technique='Coq proofs by mutual induction over a class-dictionary model (member-wise, idempotent, kind-preserving, identities) + differential correspondence with real class and member-by-member decoration',
+        design='5/C13'),
     'C04': dict(
         text='Machine-checked (Coq 8.16.1): for every signature over the five parameter kinds with pairwise '
              'distinct names and every call that CPython\'s binding rule accepts, the values selected by the '
